@@ -45,6 +45,8 @@ SchedStats schedRun(int nTasks, const SchedConfig &cfg, const TaskBody &body);
 // (sequential pre-run). Returns steps since the matching begin.
 void schedSoloBegin();
 int64_t schedSoloEnd();
+// solo steps at which the library came back from a non-re-entrant libc facility (since schedSoloBegin)
+std::vector<int64_t> schedSoloPreferredSteps();
 
 // per-operation deterministic step budget; exceeding it aborts the contained
 // call as CALL_HUNG. 0 disables.
